@@ -5,7 +5,7 @@
 p=$1; patch=$2; shift 2
 wt=/tmp/wt/trial-$p
 [ -d $wt ] || git -C /repo worktree add -f --detach $wt HEAD >/dev/null 2>&1
-git -C $wt checkout -- . ; git -C $wt apply $patch || { echo "patch does not apply"; exit 3; }
+git -C $wt checkout -- . ; git -C $wt checkout -q --detach $(git -C /repo rev-parse HEAD); git -C $wt apply $patch || { echo "patch does not apply"; exit 3; }
 for c in "$@"; do
   VERIF_REPO=$wt /verif/check $c --tier quick 2>&1 | grep -E "VIOLATION|KNOWN|^\[|INFRA" | cut -c1-300
 done
